@@ -89,13 +89,22 @@ def dispatch(eng, func, args, kwargs):
             raise torch.linalg.LinAlgError("symtrace: linalg error (info != 0) " + str(args[1] if len(args) > 1 else ""))
         return None
 
-    out = func(*args, **kwargs)
-
     if not anysym and name not in PURE_FACTORIES and name not in EMPTY_OPS and eng.track_constants:
         # concrete float computations are mirrored too: a rounded constant (sqrt(2.5), 1/3, 0.1*3) fed into symbolic
         # arithmetic would otherwise break exact identities by one ulp
         if any(t.layout == torch.strided and t.dtype in FLOAT_DT and t.numel() <= 4096 for t in tens):
             anysym = True
+    if anysym and func._schema.is_mutable and name not in METADATA_INPLACE:
+        # an in-place / out= op is about to overwrite its destination: a still-concrete destination must be lifted
+        # BEFORE the real kernel runs, otherwise its pre-op content (needed by e.g. add_) is gone
+        b0 = bind(func, args, kwargs)
+        for nm in written_args(func):
+            tgt = b0.get(nm)
+            if isinstance(tgt, torch.Tensor) and tgt.layout == torch.strided and not tgt.is_complex() and not eng.has(tgt) \
+                    and tgt.untyped_storage().nbytes() // max(tgt.element_size(), 1) <= 65536:
+                eng.promote(tgt)
+
+    out = func(*args, **kwargs)
     if name in EMPTY_OPS:
         o = out
         if isinstance(o, torch.Tensor) and o.layout == torch.strided and o.dtype in FLOAT_DT and o.numel() <= 4096:
@@ -214,6 +223,16 @@ def check(eng, func, t):
                 return
             if abs(g - r) > (2e-3 if tol32 else 1e-6) * scale:
                 eng.mismatches = getattr(eng, "mismatches", 0) + 1
+                # is the float evaluation itself ill-conditioned at this witness (catastrophic cancellation, 0/0 after a
+                # Krylov breakdown)?  then neither float number means anything: stop cross-checking this path
+                try:
+                    hp = float(T.evalmp([cells[i]], eng.env)[0])
+                except Exception:  # noqa: BLE001
+                    hp = g
+                if hp != hp or abs(hp - g) > (2e-3 if tol32 else 1e-6) * scale:
+                    eng.diverged = True
+                    eng.illconditioned += 1
+                    return
                 if eng.strict_crosscheck:
                     raise EngineMismatch(f"{func}: cell {i}: symbolic {g} vs real {r} (scale {scale}) at {eng.where()}")
                 eng.diverged = True
